@@ -305,6 +305,18 @@ fn numeric_line_for(r: &mut Rng, out: &mut dyn Write, prefix: &str, sfx: &str) {
         _ => 6,
     };
     let p = 10i128.pow(dec);
+    // numerals around zero (one line in eight for MJD / SEC, whose zero lies inside the years 0001-9999): -0.x, 0.x, -0,
+    // +-1.x with few or many (16-17) digits -- a whole part written `-0` carries the sign of the fraction (two seeded
+    // changes, C10-9 and C17-10, split the numeral into whole part and fraction and lost it)
+    if prefix != "JD" && r.chance(1, 8) {
+        let dec: u32 = *r.pick(&[1u32, 2, 3, 9, 15, 16, 17, 0]);
+        let p = 10i128.pow(dec);
+        let v = (r.below(2 * p as u64 + 1) as i128) * if r.chance(2, 3) { -1 } else { 1 };
+        let text_num = if v == 0 && r.chance(1, 2) { format!("-{}", decimal(0, dec)) } else { decimal(v, dec) };
+        let text = format!("{} {} {}", prefix, text_num, sfx);
+        writeln!(out, "nparse {} {} {} {}", str2hex(&text), prefix, str2hex(&text_num), sfx).unwrap();
+        return;
+    }
     let text_num = match prefix {
         "SEC" => {
             // seconds past the scale's own reference
